@@ -15,7 +15,9 @@ RULE = ("seeded random integer regression problems (families dense / large colum
         "n<=10 (thorough <=20), p<=4 (thorough <=6); targets with mean exactly 0, moderate mean, |mean| >> spread), "
         "alpha in 2^-10..1000 (sparse regime included), l1_ratio in {1/4,1/2,3/4,1}, tol in {2^-10,2^-14,2^-20}, both "
         "normalisation settings, Lasso and ElasticNet; exact power-of-two scale family (y, or X and y, times 2^-20, 2^-10, 2^10 "
-        "with alpha scaled so that the objective is homogeneous; outputs descaled exactly); pairs (y, y+c) and (elastic net l1_ratio=1, Lasso); every row "
+        "with alpha scaled so that the objective is homogeneous; outputs descaled exactly); target-offset family (y + 2^30..2^36 or 1e9 fed to the library, offset removed from the "
+        "intercept again); both entry points (inherent fit/predict and api::SupervisedEstimator/Predictor; every invalid setting "
+        "through both); size ladder n in {63,64,65,255,256,257} (thorough: up to 513); pairs (y, y+c) and (elastic net l1_ratio=1, Lasso); every row "
         "of the Lasso validation table incl. combinations; probes of alpha=0, constant targets and non-dyadic constant "
         "columns. Non-trivial = a valid fit in which the penalty is active but not total (some but not all |w_j| < 2^-6, "
         "or p = 1 and 0 < |w| visibly shrunk is not observable -> counted when alpha >= 1/8), a Pair event, or an "
@@ -35,6 +37,10 @@ def key_of(e, clause):
     k = key_of_unscaled(e, clause)
     if e.get("yexp", 0) or e.get("xexp", 0):
         k += " [data scaled by 2^%d (X) / 2^%d (y), alpha by 2^%d]" % (e.get("xexp", 0), e["yexp"], e.get("aexp", 0))
+    if e.get("yoff", 0) or (e["ev"] == "Pair" and abs(e.get("shift", 0)) >= 1 << 20):
+        k += " [target offset >= 2^30]"
+    if e.get("entry") == "api":
+        k += " [via api::SupervisedEstimator / Predictor]"
     return k
 
 
@@ -89,7 +95,8 @@ def run(ctx):
     events = vlib.read_ndjson(f)
     v, bads = ctx.tlc_trace("linear/LassoTrace.tla", "linear/LassoTrace.cfg", f,
                             must_hit=("Valid_lasso_raw", "Valid_lasso_std", "Valid_enet_raw", "Valid_enet_std", "Invalid",
-                                      "Pair_shift", "Pair_l1one", "ScaledDown", "ScaledUp"))
+                                      "Pair_shift", "Pair_l1one", "ScaledDown", "ScaledUp",
+                                      "TargetOffset", "Invalid_api", "Invalid_inherent", "Valid_api"))
     hits = v.get("hits", {})
     for (l, runid, ev, clause) in bads:
         e = events[l - 1]
